@@ -142,7 +142,7 @@ def fam(*a, **k):
     return f
 
 
-def simple_g(nmin=1, nmax=5, max_edges=None):
+def simple_g(nmin=0, nmax=5, max_edges=None):
     return gg.simple_graphs(nmin=nmin, nmax=nmax, max_edges=max_edges, kinds=('cnfgen',))
 
 
@@ -150,7 +150,7 @@ def bip_g(Lmin=1, Lmax=3, Rmin=1, Rmax=4, max_edges=None):
     return gg.bipartite_graphs(Lmin=Lmin, Lmax=Lmax, Rmin=Rmin, Rmax=Rmax, max_edges=max_edges, kinds=('cnfgen',))
 
 
-def dag_g(nmin=1, nmax=5, max_edges=None):
+def dag_g(nmin=0, nmax=5, max_edges=None):
     return gg.dags(nmin=nmin, nmax=nmax, max_edges=max_edges, kinds=('cnfgen',))
 
 
@@ -204,11 +204,11 @@ fam('count', st.fixed_dictionaries({'M': ints(0, 7), 'p': ints(1, 4)}).filter(
     lambda p: __import__('math').comb(p['M'], p['p']) <= 18),
     lambda p, c: [p['M'], p['p']],
     lambda p, cls: _lib().CountingPrinciple(p['M'], p['p'], formula_class=cls))
-fam('matching', st.fixed_dictionaries({'G': simple_g(1, 6, 14)}),
+fam('matching', st.fixed_dictionaries({'G': simple_g(0, 6, 14)}),
     lambda p, c: simple_tokens(c, p['G']),
     lambda p, cls: _lib().PerfectMatchingPrinciple(G_simple(p['G']), formula_class=cls), graph_kinds=('simple',))
 CHARGES = ['first', 'zero', 'one']
-fam('tseitin', st.fixed_dictionaries({'G': simple_g(1, 6, 14), 'charge': st.sampled_from(CHARGES)}),
+fam('tseitin', st.fixed_dictionaries({'G': simple_g(0, 6, 14), 'charge': st.sampled_from(CHARGES)}),
     lambda p, c: [p['charge']] + simple_tokens(c, p['G']),
     lambda p, cls: _lib().TseitinFormula(G_simple(p['G']),
                                          {'first': [1] + [0] * (p['G']['n'] - 1), 'zero': [0] * p['G']['n'],
@@ -220,7 +220,7 @@ fam('subsetcard', st.fixed_dictionaries({'B': bip_g(1, 4, 1, 4, 14), 'equal': st
     graph_kinds=('bipartite',))
 
 # --- graph problems
-fam('kcolor', st.fixed_dictionaries({'k': ints(1, 3), 'G': simple_g(1, 5)}).filter(lambda p: p['k'] * p['G']['n'] <= 16),
+fam('kcolor', st.fixed_dictionaries({'k': ints(1, 3), 'G': simple_g(0, 5)}).filter(lambda p: p['k'] * p['G']['n'] <= 16),
     lambda p, c: [p['k']] + simple_tokens(c, p['G']),
     lambda p, cls: _lib().GraphColoringFormula(G_simple(p['G']), p['k'], formula_class=cls), graph_kinds=('simple',))
 def _cycle(n, off=0):
@@ -241,33 +241,33 @@ EVEN_GRAPHS = [
 fam('ec', st.fixed_dictionaries({'G': st.sampled_from(EVEN_GRAPHS).map(lambda g: dict(g, **{'as': 'cnfgen'}))}),
     lambda p, c: simple_tokens(c, p['G']),
     lambda p, cls: _lib().EvenColoringFormula(G_simple(p['G']), formula_class=cls), graph_kinds=('simple',))
-fam('domset', st.fixed_dictionaries({'d': ints(1, 3), 'G': simple_g(1, 4), 'alternative': st.booleans()}).filter(
+fam('domset', st.fixed_dictionaries({'d': ints(1, 3), 'G': simple_g(0, 4), 'alternative': st.booleans()}).filter(
     lambda p: p['G']['n'] * (1 + p['d']) <= 16),
     lambda p, c: (['--alternative'] if p['alternative'] else []) + [p['d']] + simple_tokens(c, p['G']),
     lambda p, cls: _lib().DominatingSet(G_simple(p['G']), p['d'], alternative=p['alternative'], formula_class=cls),
     graph_kinds=('simple',))
-fam('tiling', st.fixed_dictionaries({'G': simple_g(1, 8)}),
+fam('tiling', st.fixed_dictionaries({'G': simple_g(0, 8)}),
     lambda p, c: simple_tokens(c, p['G']),
     lambda p, cls: _lib().Tiling(G_simple(p['G']), formula_class=cls), graph_kinds=('simple',))
-fam('iso', st.fixed_dictionaries({'G': simple_g(1, 4), 'G2': st.none() | simple_g(1, 4)}).filter(
+fam('iso', st.fixed_dictionaries({'G': simple_g(0, 4), 'G2': st.none() | simple_g(0, 4)}).filter(
     lambda p: p['G']['n'] * (p['G2']['n'] if p['G2'] else p['G']['n']) <= 16),
     lambda p, c: simple_tokens(c, p['G']) + ((['-e'] + simple_tokens(c, p['G2'])) if p['G2'] else []),
     lambda p, cls: (_lib().GraphIsomorphism(G_simple(p['G']), G_simple(p['G2']), formula_class=cls) if p['G2']
                     else _lib().GraphAutomorphism(G_simple(p['G']), formula_class=cls)), graph_kinds=('simple',))
-fam('kclique', st.fixed_dictionaries({'k': ints(0, 4), 'G': simple_g(1, 5), 'nosym': st.booleans()}).filter(
+fam('kclique', st.fixed_dictionaries({'k': ints(0, 4), 'G': simple_g(0, 5), 'nosym': st.booleans()}).filter(
     lambda p: p['k'] * p['G']['n'] <= 16),
     lambda p, c: [p['k']] + simple_tokens(c, p['G']) + (['--no-symmetry-breaking'] if p['nosym'] else []),
     lambda p, cls: _lib().CliqueFormula(G_simple(p['G']), p['k'], not p['nosym'], formula_class=cls),
     graph_kinds=('simple',))
-fam('kcliquebin', st.fixed_dictionaries({'k': ints(0, 4), 'G': simple_g(1, 8)}),
+fam('kcliquebin', st.fixed_dictionaries({'k': ints(0, 4), 'G': simple_g(0, 8)}),
     lambda p, c: [p['k']] + simple_tokens(c, p['G']),
     lambda p, cls: _lib().BinaryCliqueFormula(G_simple(p['G']), p['k'], formula_class=cls), graph_kinds=('simple',))
-fam('ramlb', st.fixed_dictionaries({'k': ints(0, 3), 's': ints(0, 3), 'G': simple_g(1, 5)}).filter(
+fam('ramlb', st.fixed_dictionaries({'k': ints(0, 3), 's': ints(0, 3), 'G': simple_g(0, 5)}).filter(
     lambda p: 1 + max(p['k'], p['s']) * p['G']['n'] <= 16),
     lambda p, c: [p['k'], p['s']] + simple_tokens(c, p['G']),
     lambda p, cls: _lib().RamseyWitnessFormula(G_simple(p['G']), p['k'], p['s'], formula_class=cls),
     graph_kinds=('simple',))
-fam('subgraph', st.fixed_dictionaries({'G': simple_g(1, 5), 'H': simple_g(1, 3)}).filter(
+fam('subgraph', st.fixed_dictionaries({'G': simple_g(0, 5), 'H': simple_g(0, 3)}).filter(
     lambda p: p['G']['n'] * p['H']['n'] <= 16),
     lambda p, c: ['-G'] + simple_tokens(c, p['G']) + ['-H'] + simple_tokens(c, p['H']),
     lambda p, cls: _lib().SubgraphFormula(G_simple(p['G']), G_simple(p['H']), induced=False, symbreak=False,
@@ -286,16 +286,16 @@ def _op_kwargs(p):
 fam('op', st.fixed_dictionaries({'N': ints(1, 4), 'flag': st.sampled_from(OPFLAGS), 'plant': st.booleans()}),
     lambda p, c: p['flag'] + (['--plant'] if p['plant'] else []) + [p['N']],
     lambda p, cls: _lib().OrderingPrinciple(p['N'], formula_class=cls, **_op_kwargs(p)))
-fam('op', st.fixed_dictionaries({'G': simple_g(1, 4), 'flag': st.sampled_from(OPFLAGS), 'plant': st.booleans()}),
+fam('op', st.fixed_dictionaries({'G': simple_g(0, 4), 'flag': st.sampled_from(OPFLAGS), 'plant': st.booleans()}),
     lambda p, c: p['flag'] + (['--plant'] if p['plant'] else []) + simple_tokens(c, p['G']),
     lambda p, cls: _lib().GraphOrderingPrinciple(G_simple(p['G']), formula_class=cls, **_op_kwargs(p)),
     graph_kinds=('simple',))
 
 # --- pebbling
-fam('peb', st.fixed_dictionaries({'D': dag_g(1, 8, 16)}),
+fam('peb', st.fixed_dictionaries({'D': dag_g(0, 8, 16)}),
     lambda p, c: dag_tokens(c, p['D']),
     lambda p, cls: _lib().PebblingFormula(G_dag(p['D']), formula_class=cls), graph_kinds=('dag',))
-fam('stone', st.fixed_dictionaries({'s': ints(1, 3), 'D': dag_g(1, 4, 4)}).filter(
+fam('stone', st.fixed_dictionaries({'s': ints(1, 3), 'D': dag_g(0, 4, 4)}).filter(
     lambda p: p['s'] + p['s'] * p['D']['n'] <= 14 and
     max([0] + [sum(1 for e in p['D']['edges'] if e[1] == v) for v in range(1, p['D']['n'] + 1)]) <= 2),
     lambda p, c: [p['s']] + dag_tokens(c, p['D']),
@@ -321,7 +321,7 @@ fam('php', st.fixed_dictionaries({'m': ints(1, 5), 'n': ints(2, 4), 'd': ints(1,
 fam('tseitin', st.fixed_dictionaries({'N': ints(3, 7), 'd': ints(2, 4)}).filter(
     lambda p: p['d'] < p['N'] and p['N'] * p['d'] % 2 == 0),
     lambda p, c: [p['N'], p['d']], uses_random=True)
-fam('tseitin', st.fixed_dictionaries({'G': simple_g(1, 6, 14), 'charge': st.sampled_from(['random', 'randomodd', 'randomeven'])}),
+fam('tseitin', st.fixed_dictionaries({'G': simple_g(0, 6, 14), 'charge': st.sampled_from(['random', 'randomodd', 'randomeven'])}),
     lambda p, c: [p['charge']] + simple_tokens(c, p['G']), uses_random=True, graph_kinds=('simple',))
 fam('op', st.fixed_dictionaries({'N': ints(3, 5), 'd': ints(2, 3), 'flag': st.sampled_from(OPFLAGS), 'plant': st.booleans()}).filter(
     lambda p: p['d'] < p['N'] and p['N'] * p['d'] % 2 == 0),
@@ -329,7 +329,7 @@ fam('op', st.fixed_dictionaries({'N': ints(3, 5), 'd': ints(2, 3), 'flag': st.sa
 fam('subsetcard', st.fixed_dictionaries({'N': ints(2, 4), 'd': ints(1, 3), 'equal': st.booleans()}).filter(
     lambda p: p['d'] < p['N']),
     lambda p, c: (['--equal'] if p['equal'] else []) + [p['N'], p['d']], uses_random=True)
-fam('stone', st.fixed_dictionaries({'s': ints(2, 4), 'deg': ints(1, 2), 'D': dag_g(1, 4, 4)}).filter(
+fam('stone', st.fixed_dictionaries({'s': ints(2, 4), 'deg': ints(1, 2), 'D': dag_g(0, 4, 4)}).filter(
     lambda p: p['deg'] <= p['s'] and
     max([0] + [sum(1 for e in p['D']['edges'] if e[1] == v) for v in range(1, p['D']['n'] + 1)]) <= 2),
     lambda p, c: [p['s']] + dag_tokens(c, p['D']) + ['--sparse', p['deg']], uses_random=True, graph_kinds=('dag',))
